@@ -9,9 +9,11 @@ import ScyllaVerif.Drive.Topology
 
 Case: `plan[.<tag>] <topology> <keyspace strategies> <config> <request> <samples>` or
 `tplan[.<tag>] <topology> <keyspace strategies> <config> <request> <tablet> <samples>` (topology syntax: `Drive/Topology.lean`;
-`tplan`: the request's table `(k<ks>, t)` is TABLET based - the replicas come from the tablet map, the ring is not
-consulted; `<tablet>` = `-` (no tablet yet) or the replicas `id@shard,…` of the one tablet covering every token, a node
-possibly twice with different shards; the model is C12's `pickT` / `fallbackT` of `Model/Routing.lean`;
+`tplan`: the table `(k0, t)` is TABLET based; `<tablet>` = `-` (no tablet yet) or tablets separated by `|`, each
+`first:last:id@shard,…` (ascending, disjoint; bare `id@shard,…` = one tablet covering every token; a node possibly twice
+with different shards).  A request on keyspace k0 is routed by the tablet covering its token (no replicas when none
+does - the ring is NOT consulted; model: C12's `pickT` / `fallbackT` of `Model/Routing.lean`), a request on another or
+an unknown keyspace or without table by the ring as in `plan`;
 the flags word of a peer contains `d` = disabled by the host filter, `x` = no usable connection, and optionally
 `s<nr_shards>.<msb_ignore>` = the node's sharder; `samples` > 0).
 ```
@@ -307,14 +309,51 @@ def check (ps : List (Peer × String)) (pm : PolicyM) (lwt shuffle : Bool) (n nS
         if !shuffleOk then pre ++ " REJECT shuffling-disabled-but-replica-choices-vary"
         else pre ++ String.join (sampleWords.map (" " ++ ·))
 
-/-- The tablet's replicas on the case line: `-` = no tablet, else `id@shard,…` (known host ids only). -/
-def parseTablet (ps : List (Peer × String)) (s : String) : Option (List SRep) :=
+/-- Replicas `id@shard,…` of a tablet on the case line (known host ids only). -/
+def parseReps (ps : List (Peer × String)) (s : String) : Option (List SRep) :=
+  match (s.splitOn ",").mapM parseObs with
+  | none => none
+  | some l => l.mapM (fun o => match o.2, ps.find? (fun p => p.1.node.id == o.1) with
+    | some sh, some p => some (p.1.node, sh)
+    | _, _ => none)
+
+/-- One tablet `first:last:replicas` (both bounds belong to the tablet), or bare `replicas` = the tablet of every token. -/
+def parseTabletOne (ps : List (Peer × String)) (s : String) : Option (Int × Int × List SRep) :=
+  match s.splitOn ":" with
+  | [r] => (parseReps ps r).map (fun reps => (-9223372036854775807, 9223372036854775807, reps))
+  | [f, l, r] =>
+    match f.toInt?, l.toInt?, parseReps ps r with
+    | some f, some l, some reps =>
+      if -9223372036854775808 < f && f ≤ l && l ≤ 9223372036854775807 then some (f, l, reps) else none
+    | _, _, _ => none
+  | _ => none
+
+/-- Tablets are given in ascending order and disjoint (what `TableTablets::add_tablet` maintains: C15). -/
+def tabletsSorted : List (Int × Int × List SRep) → Bool
+  | a :: b :: rest => decide (a.2.1 < b.1) && tabletsSorted (b :: rest)
+  | _ => true
+
+/-- The tablets of the table on the case line: `-` = none yet, else tablets separated by `|`. -/
+def parseTablets (ps : List (Peer × String)) (s : String) : Option (List (Int × Int × List SRep)) :=
   if s == "-" then some []
-  else match (s.splitOn ",").mapM parseObs with
+  else match (s.splitOn "|").mapM (parseTabletOne ps) with
+    | some ts => if tabletsSorted ts then some ts else none
     | none => none
-    | some l => l.mapM (fun o => match o.2, ps.find? (fun p => p.1.node.id == o.1) with
-      | some sh, some p => some (p.1.node, sh)
-      | _, _ => none)
+
+/-- `tablet_for_token(token).map(replicas)` on a sorted disjoint list: the replicas of the tablet covering the token,
+`&[]` when none does (C15 proves the binary search finds exactly it). -/
+def coveringReps (ts : List (Int × Int × List SRep)) (tok : Option Int) : List SRep :=
+  match tok with
+  | none => []
+  | some t => match ts.find? (fun x => decide (x.1 ≤ t ∧ t ≤ x.2.1)) with
+    | some x => x.2.2
+    | none => []
+
+/-- `replicas_for_token` / `dc_replicas_for_token` of the covering tablet: the list, or its members of one datacenter. -/
+def tabletV (reps : List SRep) : Option Nat → List SRep := fun dc =>
+  match dc with
+  | none => reps
+  | some d => reps.filter (fun r => r.1.dc == some d)
 
 def run (case impl : String) : String :=
   match words case with
@@ -331,16 +370,19 @@ def run (case impl : String) : String :=
     if !(head == "tplan" || head.startsWith "tplan.") then "bad-case" else
     match parseTopologyEx topo, parseStrategies kss, parseConfig cfg, parseRequest req, nSamples.toNat? with
     | some ps, some ks, some (cfg, shuffle), some rq, some nS =>
-      let ksOk := match rq.table with | some k => decide (k < ks.length) | none => false
-      match parseTablet ps tablet with
+      match parseTablets ps tablet with
       | none => "bad-case"
-      | some reps =>
-        if nS == 0 || !ksOk || ps.any (fun p => (parseSharder p.2).isNone) then "bad-case" else
+      | some tabs =>
+        if nS == 0 || ks.isEmpty || ps.any (fun p => (parseSharder p.2).isNone) then "bad-case" else
         let cl := mkCluster ps ks rq.token
-        -- `replicas_for_token` / `dc_replicas_for_token` of the one tablet: the list, or its members of one datacenter
-        let V : Option Nat → List SRep := fun dc => match dc with
-          | none => reps
-          | some d => reps.filter (fun r => r.1.dc == some d)
+        -- the tablet table is `(k0, t)`: `tablets_for_table` answers it for requests on keyspace k0 only; any other
+        -- request (another / unknown keyspace, no table) is routed by the ring
+        if rq.table != some 0 then
+          check ps ⟨pick cl cfg rq, fallback cl cfg rq, fallbackGroups cl cfg rq⟩ rq.routeAsLwt shuffle
+            ((allNodes cl).length + 1) nS impl
+        else
+        let reps := coveringReps tabs rq.token
+        let V := tabletV reps
         let groups : RhoFb → List (List Target) := fun ρ =>
           (if tokenAware cl cfg rq then replicaGroupsT cl cfg rq V ρ else [[], [], []]) ++
             (fallbackGroups cl cfg (rqNoToken rq) ρ).drop 3
